@@ -94,6 +94,8 @@ package transports
 //@   ensures @C15: len(ciphertext) < 48 ==> result1 == ErrPublicKeyLen && result0 == nil
 //@   ensures @C15: len(ciphertext) >= 48 ==> defined(attempted)
 //@   ensures @C11: true
+// the tag the station was given is left untouched (the prefix transport tries every station key on the same bytes)
+//@   assigns nothing
 //@   checks safety
 
 //@ func aesGcmEncrypt(plaintext []byte, key []byte, iv []byte) ([]byte, error)
@@ -112,6 +114,8 @@ package transports
 //@ func aesCTR(in []byte, key []byte, iv []byte) ([]byte, error)
 //@   requires len(iv) == 16
 //@   ensures @C15: len(key) == 16 ==> result1 == nil && len(result0) == len(in) && string(result0) == ctrStream(old(string(key)), old(string(iv)), old(string(in)))
+// (the stream is applied into a new buffer: the input is left as it was)
+//@   assigns nothing
 //@   checks safety
 
 //@ func (o CTRObfuscator) TryReveal(ciphertext []byte, privateKey [32]byte) ([]byte, error)
@@ -121,6 +125,8 @@ package transports
 //@   ensures @C15: len(ciphertext) >= 32 ==> defined(attempted)
 //@   ensures @C15: result1 == nil ==> len(result0) == len(ciphertext) - 32
 //@   ensures @C11: true
+// the tag the station was given is left untouched (the prefix transport tries every station key on the same bytes)
+//@   assigns nothing
 //@   checks safety
 
 //@ func (o CTRObfuscator) Obfuscate(plainText []byte, stationPubkey []byte) ([]byte, error)
